@@ -35,8 +35,9 @@ legitimately end near, not at, the optimum).
 Failpoint stratum (one global-optimizer case and one minimize-family case per problem of the global stratum): a
 twin Problem is run with the component raising AnalysisError at ONE model evaluation - the one the driver makes
 after the optimizer returned (the model being put at the returned design) or one the optimizer asked for.
-run_driver() must not report success; afterwards the SAME Problem/driver is run again without the fault and
-judged by the full oracle (keys rerun-after-model-exception:*).
+run_driver() may raise or report failure; a reported success must leave the model AT the returned design (i, i');
+afterwards the SAME Problem/driver is run again without the fault and judged by the full oracle (keys
+rerun-after-model-exception:*).
 """
 import copy
 
@@ -111,7 +112,8 @@ ASSUMPTIONS = [
     'round-off tolerance of the sum of the magnitudes of the terms (1e-13 relative) in addition to 1e-9 of the value',
     'failpoint stratum: the twin repeats the evaluation sequence of the clean run (deterministic optimizers / '
     'fixed seeds); when the failpoint is not reached the case is discarded; run_driver() may raise anything or '
-    'report failure, only a reported success is a violation',
+    'report failure; a reported success is judged by (i)/(i\') only (the documentation leaves the reaction to an '
+    'AnalysisError to the optimizer)',
 ]
 MIN_JUDGED = {'quick': 300, 'thorough': 3000}
 REQUIRED_COUNTERS = ['obs:success:SLSQP', 'obs:success:COBYLA', 'obs:success:trust-constr',
@@ -820,8 +822,9 @@ def judge_fault(case, spec, ref, ex, clean, acc):
       'restore' - the evaluation the driver makes after the optimizer returned (the model being put at the
                   returned design), when there is one;
       'mid'     - one of the evaluations the optimizer asks for (not the first one, which run() makes itself).
-    run_driver() may raise or report failure; it must not report success (the model could not be evaluated
-    at the design / somewhere on the way, and the outputs in the model are not those of the design).  Then
+    run_driver() may raise or report failure; when it reports success the model must still be AT the returned
+    design (inputs = returned x, outputs = those of these inputs - impossible when the evaluation at the returned
+    design is the one that raised and the exception was swallowed).  Then
     the SAME Problem/driver is run again without the fault from the original start and judged by the full
     oracle (keys prefixed rerun-after-model-exception:): nothing of the aborted run may leak into it."""
     import openmdao.api as om
@@ -871,14 +874,26 @@ def judge_fault(case, spec, ref, ex, clean, acc):
         acc.count('obs:fault-injected:%s' % kind)
         acc.count('obs:fault-injected:%s:%s' % (kind, 'global' if opt in GLOBAL_OPTS else 'minimize'))
         if raised is None and bool(drv.result.success) and not drv.fail:
-            acc.viol('%s:success-reported-although-the-model-raised-at-%s' % (
-                opt, 'the-final-evaluation-at-the-returned-design' if kind == 'restore' else
-                'an-evaluation-the-optimizer-asked-for'),
-                'AnalysisError raised by the component at model evaluation #%d of %d (%s); run_driver() returned '
-                'success' % (k_abs - n0 + 1, n_tot - n0, kind), case, fp=fp)
-            return
-        acc.count('obs:fault-outcome:%s' % ('reported-failure' if raised is None else (
-            'AnalysisError-raised' if isinstance(raised, om.AnalysisError) else 'other-exception-raised')))
+            # success although the model raised (the documentation leaves the reaction to an AnalysisError to the
+            # optimizer): what the property demands of a reported success still holds - the model is AT the
+            # returned design, i.e. inputs = returned x and outputs = those of these inputs (they cannot be when
+            # the evaluation that raised was the one at the returned design)
+            xret = np.asarray(drv._scipy_optimize_result.x, float).ravel()
+            z = ScaledRef(ref, spec['x0']).z(xret)
+            finds = model_state_findings(p, ref, opt, xret, z, qpmodel.get_z(p, spec), {}, acc)
+            for i, (key, what) in enumerate(finds):
+                acc.viol('success-reported-although-the-model-raised-at-%s:%s' % (
+                    'the-final-evaluation-at-the-returned-design' if kind == 'restore' else
+                    'an-evaluation-the-optimizer-asked-for', key),
+                    'AnalysisError raised by the component at model evaluation #%d of %d; run_driver() returned '
+                    'success; %s' % (k_abs - n0 + 1, n_tot - n0, what), case, fp=fp, new_case=(i == 0))
+            if finds:
+                return
+            acc.count('obs:fault-outcome:success-with-the-model-at-the-returned-design')
+            raised = 'success'
+        if raised != 'success':
+            acc.count('obs:fault-outcome:%s' % ('reported-failure' if raised is None else (
+                'AnalysisError-raised' if isinstance(raised, om.AnalysisError) else 'other-exception-raised')))
         # ---- the same Problem again, without the fault, from the original start
         qpmodel.set_z(p, spec, spec['x0'])
         info = run_and_judge(p, drv, spec, ref, ex, opt, case['variant'], case, acc, fp,
